@@ -494,8 +494,8 @@ def _slices(n: int, prof: int, ambs=(0,), pres=(0, 1, 2), cfgs=ALL_CFG) -> List[
         for (pp, rec) in cfgs:
             for amb in ambs:
                 for a0 in range(len(_alphabet(1 if pre >= 2 else 0, rec, prof))):
-                    # the second operation is only worth partitioning after a checkout (larger alphabet)
-                    for b1 in (range(NCHUNK) if (n >= 2 and a0 == 0) else (-1,)):
+                    # the second operation is only worth partitioning after a checkout (larger alphabet) or in long histories
+                    for b1 in (range(NCHUNK) if (n >= 2 and (a0 == 0 or n >= 4)) else (-1,)):
                         out.append(dict(n=n, prof=prof, pre=pre, pre_ping=pp, recycle=rec, amb=amb, a0=a0, b1=b1))
     return out
 
